@@ -3,6 +3,7 @@ real Interpreter instances in the simulated world, side by side with the
 reference model, compared command by command."""
 from . import lang
 from .lang import Unspec
+from .sut import HarnessError
 from .session import (Sim, configure_paths, fingerprint, make_model_store,
                       model_run, setup_store)
 
@@ -27,16 +28,56 @@ def run_history(case, root, ID, ls_after_each=False):
         mstore = make_model_store(case)
         machines = {}
         baseline = {}
+        hosts = {}
         for ic in cfg["instances"]:
-            it = sim.new_interpreter(ic["name"], ic["secure"], ic["legacy"])
-            configure_paths(it, cfg["store"])
+            if cfg.get("host") == "repl":
+                from .replhost import ReplHost
+                st = cfg["store"]
+                mp = st["paths"][0] if st.get("path_scope") == "session" \
+                    and st.get("paths") else None
+                h = ReplHost(sim, ic["name"], ic["secure"], ic["legacy"], mp)
+                hosts[ic["name"]] = h
+                sim.w.sut_running = True
+                try:
+                    ok = h.start()
+                finally:
+                    sim.w.sut_running = False
+                if not ok:
+                    raise HarnessError(f"REPL did not start: {h.exc!r}")
+                probes["repl_host"] = 1
+            else:
+                it = sim.new_interpreter(ic["name"], ic["secure"],
+                                         ic["legacy"])
+                configure_paths(it, cfg["store"])
             machines[ic["name"]] = lang.Machine(mstore, ic["name"])
+
+        def call(inst, src, fname, senv=None):
+            """one command through the host of that instance"""
+            if inst not in hosts:
+                return sim.inst[inst].interpret(src, fname, senv)
+            h = hosts[inst]
+            calls, printed = h.send(src)
+            last_printed[inst] = printed
+            if h.prompts and h.prompts[-1].startswith("+"):
+                # the REPL wants a continuation line: end the statement
+                c2, p2 = h.send(")")
+                calls, printed = calls + c2, printed + p2
+                last_printed[inst] = printed
+            if not calls:
+                from ckl.errors import CklSyntaxError
+                raise CklSyntaxError("(rejected by the REPL's parser: "
+                                     + " / ".join(printed)[:100] + ")")
+            kind, val = calls[-1]
+            if kind == "exc":
+                raise val
+            return val
+        last_printed = {}
         if len(cfg["instances"]) > 1:
             probes["two_instances"] = 1
         names = [ic["name"] for ic in cfg["instances"]]
         for nm in names:
-            out = sim.run(-1, nm, [], lambda nm=nm: sim.inst[nm].interpret(
-                "ls()", "probe"))
+            out = sim.run(-1, nm, [], lambda nm=nm: call(nm, "ls()",
+                                                         "probe"))
             baseline[nm] = set(parse_ls(out["val"]))
         envs_m = {}
         envs_s = {}
@@ -52,9 +93,8 @@ def run_history(case, root, ID, ls_after_each=False):
 
         def check_names(idx, inst, mscope, senv):
             """ls() of the scope against the model's names"""
-            it2 = sim.inst[inst]
-            out = sim.run(idx, inst, [], lambda: it2.interpret(
-                "ls()", "probe", senv))
+            out = sim.run(idx, inst, [], lambda: call(inst, "ls()", "probe",
+                                                      senv))
             if out["kind"] != "val":
                 V("session-usable", "ls-failed",
                   f"op#{idx} ls() on {inst} failed: {out}")
@@ -98,7 +138,6 @@ def run_history(case, root, ID, ls_after_each=False):
             if inst not in machines:
                 continue
             m = machines[inst]
-            it = sim.inst[inst]
             envname = op.get("env")
             if envname is None:
                 mscope = m.session
@@ -142,7 +181,7 @@ def run_history(case, root, ID, ls_after_each=False):
                 observed.append({"op": idx, "unspec": str(e)})
                 break
             out = sim.run(idx, inst, faults,
-                          lambda: it.interpret(src, "cmd", senv))
+                          lambda: call(inst, src, "cmd", senv))
             got_events = sim.outs[inst].chunks[ev0[inst]:]
             rec = {"op": idx, "inst": inst, "src": src,
                    "model": [mout[0], lang.vstr(mout[1])
@@ -163,6 +202,26 @@ def run_history(case, root, ID, ls_after_each=False):
                 rec["mirror_mismatch"] = [sorted(mfired), sfired]
                 inconclusive = True
                 break
+            if out.get("cls") == "ReplDied":
+                V("host-survives", "repl-died",
+                  f"op#{idx} `{src}`: the REPL session ended: {out['msg']} "
+                  f"(the model expected {rec['model']})")
+                break
+            if inst in hosts:
+                pr = last_printed.get(inst, [])
+                rec["printed"] = pr[:3]
+                if out["kind"] == "val" and out["val"] != "NULL" and \
+                        pr[:1] != [out["val"]]:
+                    V("host-prints", "repl-print",
+                      f"op#{idx} `{src}`: interpret returned {out['val']} "
+                      f"but the REPL printed {pr}")
+                    break
+                if out["kind"] in ("rt", "syn") and not pr:
+                    V("host-prints", "repl-silent-error",
+                      f"op#{idx} `{src}` failed ({out}) but the REPL "
+                      f"printed nothing")
+                    break
+                probes["repl_commands"] = probes.get("repl_commands", 0) + 1
             if out["kind"] == "budget":
                 V("terminates", "step-budget",
                   f"op#{idx} `{src}` exceeded the step budget")
@@ -270,7 +329,11 @@ def run_history(case, root, ID, ls_after_each=False):
         res["steps"] = sim.clock.total
         res["faulty"] = bool(sim.w.fired)
         res["observed"] = observed[-12:]
-        sim.close()
+        try:
+            for h in locals().get("hosts", {}).values():
+                h.stop()
+        finally:
+            sim.close()
     return res
 
 
